@@ -15,20 +15,33 @@ def build_cases(rng, tier):
         opts = r.pick(OPTS)
         if be == 'cxx' and "-CF" in opts:
             opts = ["-Cf"]
-        c = engine.make_case("t%d" % i, r, gen_kwargs={'trailing': True, 'bol_pct': 35}, flex_opts=opts, backend=be,
+        c = engine.make_case("t%d" % i, r, gen_kwargs={'trailing': True, 'bol_pct': 35, 'bars': 18 if i % 2 else 0}, flex_opts=opts, backend=be,
                              ninputs=5 if tier == "quick" else 8)
         cases.append(c)
     return cases
 
 
+def classify(case, kind, msg):
+    # KNOWN_FINDINGS.json: the c99 back end cannot generate a scanner when a rule uses the '|' action
+    if kind == 'flex-error' and case.get('backend') == 'c99' and "end of file in string" in msg \
+            and any(r.get('bar') for r in case['prog']['rules']):
+        return "c99-bar-action-m4-error"
+    # KNOWN_FINDINGS.json: YY_RULE_SETUP is not emitted for the shared action of  `r1 |` / `r2$ action`
+    rules = case['prog']['rules']
+    if kind in ('token', 'lockstep') and any(rules[i].get('bar') and rules[i + 1].get('trail') == '$' for i in range(len(rules) - 1)):
+        return "dollar-rule-after-bar-no-rule-setup"
+    return None
+
+
 def main(tier):
+    engine.CLASSIFY = classify
     return engine.standard_main(
         PROP, tier, "Properties_C06.v", build_cases,
         "random rule sets with ^, $ and r/s (fixed and variable head/trail, competing rules) x table option x back end; "
         "every token of the compiled scanner is judged by the proved validator (competes with head+trail, action sees a head "
         "split with head and trail matching); rule sets for which flex warns 'dangerous trailing context' are excluded as the property says; "
         "non-trivial = DFA >= 3 states and >= 2 rules matched",
-        ["'|' actions (continued actions making fixed context variable) are generated only in the thorough tier of C09/C06 growth",
+        ["with '|' actions the scanner can only report the rule whose action text runs; the validator checks owner(selected rule)",
          "for ambiguous splits the validator accepts any split with head and trail matching"])
 
 
